@@ -159,17 +159,314 @@ def _clean(fn: ast.FunctionDef) -> List[ast.stmt]:
     return out
 
 
+# ---------------------------------------------------------------------------------------------- record methods (round 4)
+# Methods of File / Folder that touch only the object's own fields, translated onto `FileRec` / `FolderRec` (structure + health):
+#     return True / False                                   (r, true) / (r, false)
+#     self.deleted = True / False                           let r := { r with <item> := { r.<item> with deleted := … } }
+#     self.health_status = FileSystemItemHealthStatus.X     let r := { r with health := .x }
+#     self.visible_health_status = self.health_status | …X  let r := { r with visible := r.health | .x }
+#     self.num_access += 1                                  let r := { r with acc := r.acc + 1 }                       (File)
+#     self.restore_countdown = max(self.restore_duration, 1)  let r := { r with g := { r.g with restoreCountdown := max … 1 } }  (Folder)
+#     if <cond>: … [elif/else: …]                           if … then T(body ++ rest) else T(orelse ++ rest)   (continuation passing:
+#                                                           a branch that returns ends there; code after a `return` is dead)
+#     cond: self.deleted | self.health_status == …X | self.health_status in [X, Y] | self.restore_countdown <= 0 | not / and / or
+#     logging, docstrings, warnings.warn(...), `path = …` (string for the log)            skipped
+HEALTH = "FileSystemItemHealthStatus."
+
+
+def _health(e: ast.AST) -> str:
+    u = _u(e)
+    if not u.startswith(HEALTH):
+        raise Unsupported("health value " + u)
+    return "Health." + u[len(HEALTH):].lower()
+
+
+def _rcond(e: ast.AST, item: str) -> str:
+    if isinstance(e, ast.BoolOp):
+        op = " && " if isinstance(e.op, ast.And) else " || "
+        return "(" + op.join(_rcond(v, item) for v in e.values) + ")"
+    if isinstance(e, ast.UnaryOp) and isinstance(e.op, ast.Not):
+        return f"(!{_rcond(e.operand, item)})"
+    u = _u(e)
+    if u == "self.deleted":
+        return f"r.{item}.deleted"
+    if isinstance(e, ast.Compare) and len(e.ops) == 1:
+        l, r, op = _u(e.left), e.comparators[0], e.ops[0]
+        fld = {"self.health_status": "r.health", "self.visible_health_status": "r.visible"}.get(l)
+        if fld and isinstance(op, ast.Eq):
+            return f"({fld} == {_health(r)})"
+        if fld and isinstance(op, ast.NotEq):
+            return f"({fld} != {_health(r)})"
+        if fld and isinstance(op, ast.In) and isinstance(r, ast.List):
+            return "(" + " || ".join(f"{fld} == {_health(x)}" for x in r.elts) + ")"
+        if item == "g" and l == "self.restore_countdown" and isinstance(op, ast.LtE) and _u(r) == "0":
+            return "decide (r.g.restoreCountdown ≤ 0)"
+        if item == "g" and l == "self.restore_countdown" and isinstance(op, ast.GtE) and _u(r) == "0":
+            return "decide (r.g.restoreCountdown ≥ 0)"
+        if item == "g" and l == "self.restore_countdown" and isinstance(op, ast.Eq) and _u(r) == "0":
+            return "decide (r.g.restoreCountdown = 0)"
+    raise Unsupported("condition " + u)
+
+
+def _rskip(st: ast.stmt) -> bool:
+    if isinstance(st, ast.Expr) and isinstance(st.value, ast.Constant):
+        return True
+    if _is_syslog(st):
+        return True
+    if isinstance(st, ast.Expr) and isinstance(st.value, ast.Call) and _u(st.value.func) == "warnings.warn":
+        return True
+    if isinstance(st, ast.Assign) and len(st.targets) == 1 and isinstance(st.targets[0], ast.Name) and st.targets[0].id in ("path", "msg"):
+        if any(isinstance(n, ast.Call) for n in ast.walk(st.value)):
+            raise Unsupported("call inside a log string " + _u(st))
+        return True
+    return False
+
+
+def _restore_loop(st: ast.stmt, over: str) -> bool:
+    """`for <k>, file in <over>.items(): self.restore_file(file_name=file.name)`"""
+    return (isinstance(st, ast.For) and not st.orelse and _u(st.iter) == f"{over}.items()" and isinstance(st.target, ast.Tuple)
+            and len(st.target.elts) == 2 and len(st.body) == 1
+            and _u(st.body[0]) == f"self.restore_file(file_name={_u(st.target.elts[1])}.name)")
+
+
+def _rstmts(body: List[ast.stmt], item: str, ind: int, unit: bool = False) -> str:
+    pad = "  " * ind
+    body = [st for st in body if not _rskip(st)]
+    if not body:
+        if unit:
+            return pad + "r"
+        raise Unsupported("a method that answers falls off the end")
+    st, rest = body[0], body[1:]
+    if unit and item == "g":
+        # the two loops of _restoring_timestep: over the live files, then over a COPY of the deleted ones taken before the loop
+        if _restore_loop(st, "self.files"):
+            return (pad + "let r := { r with g := r.g.files.foldl (fun (a : Folder) (file : File) => (a.restoreFile file.name).1) r.g }\n"
+                    + _rstmts(rest, item, ind, unit))
+        if (isinstance(st, ast.Assign) and _u(st.value) == "self.deleted_files.copy()" and isinstance(st.targets[0], ast.Name)
+                and rest and _restore_loop(rest[0], st.targets[0].id)):
+            return (pad + "let r := { r with g := r.g.deletedFiles.foldl (fun (a : Folder) (file : File) => (a.restoreFile file.name).1) r.g }\n"
+                    + _rstmts(rest[1:], item, ind, unit))
+        if isinstance(st, ast.AugAssign) and _u(st.target) == "self.restore_countdown" and isinstance(st.op, ast.Sub) and _u(st.value) == "1":
+            return pad + "let r := { r with g := { r.g with restoreCountdown := r.g.restoreCountdown - 1 } }\n" + _rstmts(rest, item, ind, unit)
+    if unit and isinstance(st, ast.If):
+        return (pad + f"if {_rcond(st.test, item)} then\n" + _rstmts(list(st.body) + rest, item, ind + 1, unit) + "\n" + pad + "else\n"
+                + _rstmts(list(st.orelse) + rest, item, ind + 1, unit))
+    if unit and isinstance(st, ast.Assign) and len(st.targets) == 1:
+        t, v = _u(st.targets[0]), st.value
+        if t == "self.deleted" and isinstance(v, ast.Constant) and isinstance(v.value, bool):
+            return pad + f"let r := {{ r with {item} := {{ r.{item} with deleted := {'true' if v.value else 'false'} }} }}\n" + _rstmts(rest, item, ind, unit)
+        if t == "self.health_status":
+            return pad + f"let r := {{ r with health := {_health(v)} }}\n" + _rstmts(rest, item, ind, unit)
+        raise Unsupported("assignment " + _u(st))
+    if unit:
+        raise Unsupported("statement " + _u(st)[:80])
+    if isinstance(st, ast.Return):
+        if not (isinstance(st.value, ast.Constant) and isinstance(st.value.value, bool)):
+            raise Unsupported("return " + _u(st))
+        return pad + f"(r, {'true' if st.value.value else 'false'})"
+    if isinstance(st, ast.If):
+        return (pad + f"if {_rcond(st.test, item)} then\n" + _rstmts(list(st.body) + rest, item, ind + 1) + "\n" + pad + "else\n"
+                + _rstmts(list(st.orelse) + rest, item, ind + 1))
+    if isinstance(st, ast.Assign) and len(st.targets) == 1:
+        t, v = _u(st.targets[0]), st.value
+        if t == "self.deleted" and isinstance(v, ast.Constant) and isinstance(v.value, bool):
+            return pad + f"let r := {{ r with {item} := {{ r.{item} with deleted := {'true' if v.value else 'false'} }} }}\n" + _rstmts(rest, item, ind)
+        if t == "self.health_status":
+            return pad + f"let r := {{ r with health := {_health(v)} }}\n" + _rstmts(rest, item, ind)
+        if t == "self.visible_health_status":
+            val = "r.health" if _u(v) == "self.health_status" else _health(v)
+            return pad + f"let r := {{ r with visible := {val} }}\n" + _rstmts(rest, item, ind)
+        if item == "g" and t == "self.restore_countdown" and _u(v) == "max(self.restore_duration, 1)":
+            return pad + "let r := { r with g := { r.g with restoreCountdown := max r.g.restoreDuration 1 } }\n" + _rstmts(rest, item, ind)
+        raise Unsupported("assignment " + _u(st))
+    if isinstance(st, ast.AugAssign) and item == "f" and _u(st.target) == "self.num_access" and isinstance(st.op, ast.Add) and _u(st.value) == "1":
+        return pad + "let r := { r with acc := r.acc + 1 }\n" + _rstmts(rest, item, ind)
+    raise Unsupported("statement " + _u(st)[:80])
+
+
+# ---------------------------------------------------------------------------------------------- lookups and state-level methods
+# A third small translator, continuation passing like the one above, over `g : Folder` (kind "folder") or `s : State` (kind "fs"):
+#     for X in self.files.values() | self.deleted_files.values() | self.folders.values() | self.deleted_folders.values():
+#         if X.name == N: <body ending in return>          match (LIST).find? (fun X => X.name == N) with | some X => T(body) | none => T(rest)
+#     if include_deleted: …   /  if X: … / if not X: …      Bool parameter / Optional truthiness (objects are truthy)
+#     if self.files.get(X.uuid): …                          if g.files.any (fun y => y.id == X.id) then …
+#     X = self.get_folder(N[, include_deleted=…]) / X = Y.get_file(N[, include_deleted=True])
+#     self.files.pop(X.uuid)                                let g := { g with files := dictPop File.id g.files X.id }
+#     self.deleted_files[X.uuid] = X ; X.delete()           let g := { g with deletedFiles := dictSet File.id g.deletedFiles X.delete }
+#                                                           (the object is flagged AFTER it was stored: one object, so the stored one is flagged)
+#     self.remove_file(X)                                   let g := g.removeFile X
+#     Y.remove_file(X)          (Y a folder of the file system)   let s := updFolder s Y.id (fun g => g.removeFile X)
+#     self.num_file_deletions += 1                          let s := { s with numDeletions := s.numDeletions + 1 }
+#     return X / None / True / False / Y.restore_file(file_name=N)
+#     `if <type guard>: raise`, logging, `msg = …`          skipped
+def _lkw(call: ast.Call, name: str, pos: int):
+    for k in call.keywords:
+        if k.arg == name:
+            return k.value
+    return call.args[pos] if pos < len(call.args) else None
+
+
+def _lstmts(body: List[ast.stmt], kind: str, res: str, env: dict, ind: int) -> str:
+    """kind: "folder" (the value is `g`) or "fs" (the value is `s`); res: "optfile" | "optfolder" | "bool" | "unit"."""
+    pad = "  " * ind
+    V = "g" if kind == "folder" else "s"
+    body = [st for st in body if not _rskip(st)]
+
+    def ret(val: str) -> str:
+        return pad + (val if res in ("optfile", "optfolder") else f"({V}, {val})")
+    if not body:
+        if res == "unit":
+            return pad + V
+        raise Unsupported("falls off the end")
+    st, rest = body[0], body[1:]
+    if isinstance(st, ast.Return):
+        v = st.value
+        if v is None or (isinstance(v, ast.Constant) and v.value is None):
+            return ret("none") if res.startswith("opt") else pad + V
+        if isinstance(v, ast.Constant) and isinstance(v.value, bool) and res == "bool":
+            return ret("true" if v.value else "false")
+        if isinstance(v, ast.Name) and res.startswith("opt") and env.get(v.id) in ("file", "folder"):
+            return ret(f"some {v.id}")
+        if (kind == "fs" and res == "bool" and isinstance(v, ast.Call) and isinstance(v.func, ast.Attribute) and v.func.attr == "restore_file"
+                and isinstance(v.func.value, ast.Name) and env.get(v.func.value.id) == "folder"):
+            y, n = v.func.value.id, _lkw(v, "file_name", 0)
+            return pad + f"(updFolder s {y}.id (fun g => (g.restoreFile {_u(n)}).1), ({y}.restoreFile {_u(n)}).2)"
+        raise Unsupported("return " + _u(st))
+    if isinstance(st, ast.For):
+        lists = {"self.files.values()": "g.files", "self.deleted_files.values()": "g.deletedFiles",
+                 "self.folders.values()": "s.folders", "self.deleted_folders.values()": "s.deletedFolders"}
+        lst = lists.get(_u(st.iter))
+        if (lst is None or st.orelse or not isinstance(st.target, ast.Name) or len(st.body) != 1 or not isinstance(st.body[0], ast.If)
+                or st.body[0].orelse or not (lst[0] == V)):
+            raise Unsupported("loop " + _u(st)[:60])
+        x, test = st.target.id, st.body[0].test
+        if not (isinstance(test, ast.Compare) and _u(test.left) == f"{x}.name" and isinstance(test.ops[0], ast.Eq)
+                and isinstance(test.comparators[0], ast.Name)):
+            raise Unsupported("search condition " + _u(test))
+        inner = [b for b in st.body[0].body if not _rskip(b)]
+        if not inner or not isinstance(inner[-1], ast.Return):
+            raise Unsupported("search loop whose body does not return")
+        what = "file" if "iles" in lst and "older" not in lst.split(".")[1] else "folder"
+        what = "file" if lst in ("g.files", "g.deletedFiles") else "folder"
+        return (pad + f"match {lst}.find? (fun {x} => {x}.name == {test.comparators[0].id}) with\n"
+                + pad + f"| some {x} =>\n" + _lstmts(inner, kind, res, dict(env, **{x: what}), ind + 1) + "\n"
+                + pad + "| none =>\n" + _lstmts(rest, kind, res, env, ind + 1))
+    if isinstance(st, ast.If):
+        t = st.test
+        if _is_type_guard(t) and len([b for b in st.body if not _rskip(b)]) == 1 and isinstance(st.body[-1], ast.Raise):
+            return _lstmts(rest, kind, res, env, ind)
+        neg = isinstance(t, ast.UnaryOp) and isinstance(t.op, ast.Not)
+        core = t.operand if neg else t
+        yes, no = (list(st.orelse), list(st.body)) if neg else (list(st.body), list(st.orelse))
+        if isinstance(core, ast.Name) and env.get(core.id) == "bool":
+            return (pad + f"if {core.id} then\n" + _lstmts(yes + rest, kind, res, env, ind + 1) + "\n" + pad + "else\n"
+                    + _lstmts(no + rest, kind, res, env, ind + 1))
+        if isinstance(core, ast.Name) and env.get(core.id) in ("optfile", "optfolder"):
+            x = core.id
+            return (pad + f"match {x} with\n" + pad + f"| some {x} =>\n" + _lstmts(yes + rest, kind, res, dict(env, **{x: env[x][3:]}), ind + 1)
+                    + "\n" + pad + "| none =>\n" + _lstmts(no + rest, kind, res, env, ind + 1))
+        if kind == "folder" and not neg and isinstance(core, ast.Call) and _u(core.func) == "self.files.get" and len(core.args) == 1:
+            a = core.args[0]
+            if not (isinstance(a, ast.Attribute) and a.attr == "uuid" and env.get(_u(a.value)) == "file"):
+                raise Unsupported("condition " + _u(core))
+            return (pad + f"if g.files.any (fun y => y.id == {_u(a.value)}.id) then\n" + _lstmts(yes + rest, kind, res, env, ind + 1) + "\n"
+                    + pad + "else\n" + _lstmts(no + rest, kind, res, env, ind + 1))
+        raise Unsupported("if " + _u(t))
+    if isinstance(st, ast.Assign) and len(st.targets) == 1 and isinstance(st.targets[0], ast.Name) and isinstance(st.value, ast.Call):
+        x, c = st.targets[0].id, st.value
+        f = _u(c.func)
+        incl = _lkw(c, "include_deleted", 1)
+        inc = "false" if incl is None else ("true" if (isinstance(incl, ast.Constant) and incl.value) else None)
+        if inc is None:
+            raise Unsupported("include_deleted argument " + _u(c))
+        if kind == "fs" and f == "self.get_folder":
+            n = _lkw(c, "folder_name", 0)
+            return pad + f"let {x} := getFolder s {_u(n)} {inc}\n" + _lstmts(rest, kind, res, dict(env, **{x: "optfolder"}), ind)
+        if isinstance(c.func, ast.Attribute) and c.func.attr == "get_file" and isinstance(c.func.value, ast.Name) and env.get(c.func.value.id) == "folder":
+            n = _lkw(c, "file_name", 0)
+            return pad + f"let {x} := {c.func.value.id}.getFile {_u(n)} {inc}\n" + _lstmts(rest, kind, res, dict(env, **{x: "optfile"}), ind)
+        raise Unsupported("assignment " + _u(st))
+    if isinstance(st, ast.AugAssign) and kind == "fs" and _u(st.target) == "self.num_file_deletions" and isinstance(st.op, ast.Add) and _u(st.value) == "1":
+        return pad + "let s := { s with numDeletions := s.numDeletions + 1 }\n" + _lstmts(rest, kind, res, env, ind)
+    if isinstance(st, ast.Assign) and kind == "folder" and len(st.targets) == 1 and isinstance(st.targets[0], ast.Subscript):
+        tgt = st.targets[0]
+        if (_u(tgt.value) == "self.deleted_files" and isinstance(st.value, ast.Name) and _u(tgt.slice) == f"{st.value.id}.uuid"
+                and rest and _u(rest[0]) == f"{st.value.id}.delete()"):
+            x = st.value.id
+            return (pad + f"let g := {{ g with deletedFiles := dictSet File.id g.deletedFiles {x}.delete }}\n" + _lstmts(rest[1:], kind, res, env, ind))
+        raise Unsupported("store " + _u(st))
+    if isinstance(st, ast.Expr) and isinstance(st.value, ast.Call):
+        c = st.value
+        f = _u(c.func)
+        if kind == "folder" and f == "self.files.pop" and len(c.args) == 1 and isinstance(c.args[0], ast.Attribute) and c.args[0].attr == "uuid":
+            return pad + f"let g := {{ g with files := dictPop File.id g.files {_u(c.args[0].value)}.id }}\n" + _lstmts(rest, kind, res, env, ind)
+        if kind == "folder" and f == "self.remove_file" and len(c.args) == 1 and isinstance(c.args[0], ast.Name):
+            return pad + f"let g := g.removeFile {c.args[0].id}\n" + _lstmts(rest, kind, res, env, ind)
+        if (kind == "fs" and isinstance(c.func, ast.Attribute) and c.func.attr == "remove_file" and isinstance(c.func.value, ast.Name)
+                and env.get(c.func.value.id) == "folder" and len(c.args) == 1 and isinstance(c.args[0], ast.Name)):
+            return (pad + f"let s := updFolder s {c.func.value.id}.id (fun g => g.removeFile {c.args[0].id})\n" + _lstmts(rest, kind, res, env, ind))
+        raise Unsupported("call " + _u(st))
+    raise Unsupported("statement " + _u(st)[:80])
+
+
+LOOKUP_METHODS = [  # (class, method, lean name, kind, result, parameters (python name -> (lean binder, env kind)))
+    ("Folder", "get_file", "folderGetFile", "folder", "optfile", [("file_name", "Name", None), ("include_deleted", "Bool", "bool")]),
+    ("Folder", "remove_file", "folderRemoveFile", "folder", "unit", [("file", "File", "file")]),
+    ("Folder", "remove_file_by_name", "folderRemoveFileByName", "folder", "bool", [("file_name", "Name", None)]),
+    ("FileSystem", "get_folder", "fsGetFolder", "fs", "optfolder", [("folder_name", "Name", None), ("include_deleted", "Bool", "bool")]),
+    ("FileSystem", "delete_file", "fsDeleteFile", "fs", "bool", [("folder_name", "Name", None), ("file_name", "Name", None)]),
+    ("FileSystem", "restore_file", "fsRestoreFile", "fs", "bool", [("folder_name", "Name", None), ("file_name", "Name", None)]),
+]
+RESULT_TYPE = {("folder", "optfile"): "Option File", ("folder", "unit"): "Folder", ("folder", "bool"): "Folder × Bool",
+               ("fs", "optfolder"): "Option Folder", ("fs", "bool"): "State × Bool"}
+
+FILE_METHODS = [("restore", "fileRestore"), ("delete", "fileDelete"), ("scan", "fileScan"), ("repair", "fileRepair"),
+                ("corrupt", "fileCorrupt"), ("check_hash", "fileCheckHash")]
+FOLDER_METHODS = [("restore", "folderRestore"), ("delete", "folderDelete"), ("check_hash", "folderCheckHash")]
+FOLDER_UNIT_METHODS = [("_restoring_timestep", "folderRestoringTimestep")]
+TRANSLATED = (["Folder.restore_file", "Folder.add_file"] + [f"File.{m}" for m, _ in FILE_METHODS]
+              + [f"Folder.{m}" for m, _ in FOLDER_METHODS] + [f"Folder.{m}" for m, _ in FOLDER_UNIT_METHODS]
+              + [f"{c}.{m}" for c, m, *_ in LOOKUP_METHODS])
+
+
 def emit() -> str:
     fo = class_def(parse(FOLDER), "Folder")
     rf = find_method(fo, "restore_file")
     af = find_method(fo, "add_file")
     if [a.arg for a in rf.args.args] != ["self", "file_name"] or [a.arg for a in af.args.args] != ["self", "file", "force"]:
         raise Unsupported("signature of restore_file / add_file")
-    L = ["import PrimaiteModel.Model.FileSystem", "namespace Primaite.Gen.FileSystemMethods", "open Primaite.FileSystem", "",
+    from harness.extract.filesystem import FILE
+    fi = class_def(parse(FILE), "File")
+    R: List[str] = []
+    for cls, item, rec, table in ((fi, "f", "FileRec", FILE_METHODS), (fo, "g", "FolderRec", FOLDER_METHODS)):
+        for m, nm in table:
+            fn = find_method(cls, m)
+            if [a.arg for a in fn.args.args] != ["self"]:
+                raise Unsupported(f"signature of {cls.name}.{m}")
+            R += [f"/-- `{cls.name}.{m}`, translated statement by statement onto `{rec}` -/",
+                  f"def {nm} (r : {rec}) : {rec} × Bool :=", _rstmts(list(fn.body), item, 1), ""]
+    for m, nm in FOLDER_UNIT_METHODS:
+        fn = find_method(fo, m)
+        if [a.arg for a in fn.args.args] != ["self"]:
+            raise Unsupported(f"signature of Folder.{m}")
+        R += [f"/-- `Folder.{m}`, translated statement by statement onto `FolderRec` -/",
+              f"def {nm} (r : FolderRec) : FolderRec :=", _rstmts(list(fn.body), "g", 1, unit=True), ""]
+    from harness.extract.filesystem import FS
+    fsc = class_def(parse(FS), "FileSystem")
+    for cn, m, nm, kind, res, params in LOOKUP_METHODS:
+        fn = find_method(fo if cn == "Folder" else fsc, m)
+        if [a.arg for a in fn.args.args] != ["self"] + [p for p, _, _ in params]:
+            raise Unsupported(f"signature of {cn}.{m}")
+        env = {p: k for p, _, k in params if k}
+        binders = " ".join(f"({p} : {t})" for p, t, _ in params)
+        V = "(g : Folder)" if kind == "folder" else "(s : State)"
+        R += [f"/-- `{cn}.{m}`, translated statement by statement -/",
+              f"def {nm} {V} {binders} : {RESULT_TYPE[(kind, res)]} :=", _lstmts(list(fn.body), kind, res, env, 1), ""]
+    L = ["import PrimaiteModel.Model.FileSystemHealth", "namespace Primaite.Gen.FileSystemMethods", "open Primaite.FileSystem", "",
          "/-- `Folder.restore_file`, translated statement by statement -/",
          "def folderRestoreFile (g : Folder) (file_name : Name) : Folder × Bool :=",
          _stmts(_clean(rf), set(), True, 1), "",
          "/-- `Folder.add_file`, translated statement by statement (`none` = raises) -/",
          "def folderAddFile (g : Folder) (file : File) (force : Bool) : Option Folder :=",
-         _stmts(_clean(af), set(), False, 1), "", "end Primaite.Gen.FileSystemMethods", ""]
+         _stmts(_clean(af), set(), False, 1), ""] + R + ["end Primaite.Gen.FileSystemMethods", ""]
     return "\n".join(L)
